@@ -851,7 +851,15 @@ func fillPartitionMapV2(ns string,
 		nlist := make([]string, replica)
 		partitionNodes[pid] = nlist
 		exclude := make([]string, 0)
-		exclude = append(exclude, oldlist...)
+		// only the first replica entries of the old row can be reused by position below.
+		// A longer old row (a replacement was added and the old replica not yet dropped)
+		// must not take its other nodes out of the candidates, otherwise the candidate set
+		// can be empty although enough nodes are alive.
+		reusable := oldlist
+		if len(reusable) > replica {
+			reusable = reusable[:replica]
+		}
+		exclude = append(exclude, reusable...)
 		for j := 0; j < replica; j++ {
 			var old string
 			if len(oldlist) > j {
